@@ -3,7 +3,8 @@ import GS.Driver.Proto
 /-!
 line-protocol driver for the publisher model (component `publisher`).
 
-ops:  `startup` | `sub t s` | `unsub s` | `pub t e` | `close t` | `shutdown` | `sync`
+ops (optionally prefixed by a producer tag `@p`, ignored here):
+      `startup` | `sub t s` | `unsub s` | `pub t e` | `close t` | `shutdown` | `sync`
 out:  one line per op: the return value (`ok` / `true` / `false`), for `sync` the callbacks made
       since the previous `sync`, per subscriber; plus a final line `end <same as sync>`.
 Per subscriber the callbacks are printed in order, except that every maximal run of consecutive
@@ -36,6 +37,10 @@ def callLine (d : D) (a : Api) (boolRet : Bool) : D × String :=
   ({ sys := r.1, buf := d.buf ++ r.2.2 }, if boolRet then toString r.2.1 else "ok")
 
 def stepLine (d : D) (t : Toks) : D × String :=
+  -- `@p` producer tag of a parallel block: the file order is a valid linearisation
+  let t := match t with
+    | tok :: rest => if tok.startsWith "@" then rest else t
+    | [] => t
   match t with
   | ["startup"] => if d.sys.started then (d, "bad-op") else callLine d .startup false
   | ["shutdown"] => callLine d .shutdown false
